@@ -582,6 +582,17 @@ class DoIPConnection:
         async with self._mutex:
             return await self.read_frame_unsafe()
 
+    def _requeue(self, skipped: list[tuple[Any, Any]]) -> None:
+        # Frames which were skipped while waiting for a specific one arrived before
+        # everything that is still queued; put them back in front of it. Appending them
+        # at the tail would hand out e.g. two DiagnosticMessages in the wrong order when
+        # the first one was skipped by the wait for an ACK.
+        later = []
+        while not self._read_queue.empty():
+            later.append(self._read_queue.get_nowait())
+        for item in skipped + later:
+            self._read_queue.put_nowait(item)
+
     async def read_diag_request_raw(self) -> DoIPDiagFrame:
         unexpected_packets: list[tuple[Any, Any]] = []
         while True:
@@ -601,8 +612,7 @@ class DoIPConnection:
                 continue
 
             # Do not consume unexpected packets, but re-add them to the queue for other consumers
-            for item in unexpected_packets:
-                await self._read_queue.put(item)
+            self._requeue(unexpected_packets)
 
             return hdr, payload
 
@@ -641,8 +651,7 @@ class DoIPConnection:
                 continue
 
             # Do not consume unexpected packets, but re-add them to the queue for other consumers
-            for item in unexpected_packets:
-                await self._read_queue.put(item)
+            self._requeue(unexpected_packets)
 
             if isinstance(payload, DiagnosticMessageNegativeAcknowledgement):
                 raise DoIPNegativeAckError(payload.ACKCode)
@@ -660,8 +669,7 @@ class DoIPConnection:
                 continue
 
             # Do not consume unexpected packets, but re-add them to the queue for other consumers
-            for item in unexpected_packets:
-                await self._read_queue.put(item)
+            self._requeue(unexpected_packets)
 
             if payload.RoutingActivationResponseCode != RoutingActivationResponseCodes.Success:
                 raise DoIPRoutingActivationDeniedError(payload.RoutingActivationResponseCode)
